@@ -171,6 +171,36 @@ def run(ctx):
     operator_rules(ctx, model)
 
 
+_WORLDS = {}
+
+
+def _world(model):
+    from .. import opjudge
+    if id(model) not in _WORLDS:
+        _WORLDS.clear()
+        _WORLDS[id(model)] = opjudge.World(model)
+    return _WORLDS[id(model)]
+
+
+def _operator_judge(ctx, model, world, cls, name, node, order):
+    """-> witnesses ([] = holds), or None when the judge cannot interpret"""
+    from .. import opjudge
+    try:
+        wit, n_ = opjudge.judge_operator(model, cls, name, node, order, world)
+    except AnalysisError as e:
+        ctx.extra.setdefault("judge_unavailable:operators", []).append(
+            f"{cls.name}.{name}: {str(e)[:80]}")
+        return None
+    ctx.ob(f"E0/{cls.name}.{name}/operator-semantics", not wit, cls.loc(),
+           f"{cls.name}.{name} interpreted on {n_} operand combinations: the "
+           f"result equals {node}({', '.join(order)}) in the value normal form "
+           "(only value-preserving shortcuts and splices, operands in order); "
+           "unsupported operands are refused" if not wit else
+           f"{cls.name}.{name}: " + "; ".join(wit[:2]), {"cases": n_},
+           nontrivial=bool(wit))
+    return wit
+
+
 def operator_rules(ctx, model):
     """the rule instances about the overloaded operators; other properties whose
     code *builds its results with these operators* (the parser's unary minus,
@@ -179,16 +209,32 @@ def operator_rules(ctx, model):
     E = model.cls(f"{PRIM}:Expression")
     n_methods = 0
     accepted_z = []
+    from .. import opjudge
+    world = opjudge.World(model)
     for name, (node, order) in GENERAL.items():
+        jwit = _operator_judge(ctx, model, world, E, name, node, order)
+        mark = len(ctx.obs)
         mem = E.members.get(name)
         if name in ("__truediv__", "__rtruediv__"):
             mem = model.lookup(E, name)
         if mem is None or mem.kind != "func":
+            if jwit is not None:
+                n_methods += 1      # (a method made by a factory: judged above)
+                continue
             ctx.ob(f"E/Expression.{name}/present", False, E.loc(),
                    f"Expression.{name} is missing")
             continue
         n_methods += 1
-        _check_method(ctx, model, E, name, mem, node, order, accepted_z)
+        try:
+            _check_method(ctx, model, E, name, mem, node, order, accepted_z)
+        except AnalysisError:
+            if jwit is None or jwit:
+                raise
+        if jwit is not None and not jwit:
+            for pre in (f"E/Expression.{name}/", f"I/Expression.{name}/"):
+                ctx.withdraw_failures_since(
+                    mark, "decided by interpreting the operator on abstract "
+                    "operands", pre)
     ctx.floor("Expression operator methods", n_methods, 24)
     _admission(ctx, model, E)
     ctx.extra["Z_tagged_identities_accepted"] = accepted_z
@@ -230,7 +276,14 @@ def _admission(ctx, model, E):
             raise AnalysisError(f"Expression.{name}: operand gate not found at "
                                 "the head of the method")
         gates[name] = used[0]
-    ctx.floor("operator methods with an operand gate", len(gates), 20)
+    judged_ok = sum(1 for o in ctx.obs if o.key.startswith("E0/Expression.")
+                    and o.ok)
+    if judged_ok < len(GENERAL):
+        ctx.floor("operator methods with an operand gate", len(gates), 20)
+    else:
+        # every operator method was interpreted with an unsupported and a
+        # boolean operand (E0/*): the gates need not be found by shape
+        ctx.extra["operand_gates_found_by_shape"] = len(gates)
     admitting = [m for m, g in gates.items() if rejects_bool.get(g) is False]
     if len(admitting) < len(gates) // 2:
         raise AnalysisError("most operator methods refuse boolean operands: "
@@ -458,8 +511,19 @@ def _overrides(ctx, model):
             ctx.ob(f"E/{cname}.{name}/present", True, cls.loc(),
                    f"{cname} does not override {name}", nontrivial=False)
             continue
-        _check_method(ctx, model, cls, name, mem, node, order, dummy,
-                      splice_self=True)
+        jwit = _operator_judge(ctx, model, _world(model), cls, name, node, order)
+        mark = len(ctx.obs)
+        try:
+            _check_method(ctx, model, cls, name, mem, node, order, dummy,
+                          splice_self=True)
+        except AnalysisError:
+            if jwit is None or jwit:
+                raise
+        if jwit is not None and not jwit:
+            for pre in (f"E/{cname}.{name}/", f"I/{cname}.{name}/"):
+                ctx.withdraw_failures_since(
+                    mark, "decided by interpreting the operator on abstract "
+                    "operands", pre)
     # any other node class that overrides an arithmetic dunder is held to the
     # same rules (same node for the operator, operands in order, only valid
     # shortcuts); the legacy exact-arithmetic classes implement their own
@@ -478,8 +542,20 @@ def _overrides(ctx, model):
             if mem.kind != "func":
                 continue
             node, order = GENERAL[name]
-            _check_method(ctx, model, n.cls, name, mem, node, order, dummy,
-                          splice_self=(n.name == node), lenient=True)
+            jwit = _operator_judge(ctx, model, _world(model), n.cls, name, node,
+                                   order)
+            mark = len(ctx.obs)
+            try:
+                _check_method(ctx, model, n.cls, name, mem, node, order, dummy,
+                              splice_self=(n.name == node), lenient=True)
+            except AnalysisError:
+                if jwit is None or jwit:
+                    raise
+            if jwit is not None and not jwit:
+                for pre in (f"E/{n.name}.{name}/", f"I/{n.name}.{name}/"):
+                    ctx.withdraw_failures_since(
+                        mark, "decided by interpreting the operator on abstract "
+                        "operands", pre)
 
 
 def _is_typeerror(model, module, name, _depth=0):
@@ -500,7 +576,7 @@ def _is_typeerror(model, module, name, _depth=0):
 
 def _ordering(ctx, model, E):
     for name in ("__lt__", "__le__", "__gt__", "__ge__"):
-        mem = E.members.get(name)
+        mem = model.lookup(E, name)         # (follows class-body aliases)
         ok = False
         if mem is not None and mem.kind == "func":
             pss = summarize(mem.node, node_param=False)
@@ -742,7 +818,18 @@ def _truthiness(ctx, model):
                    "-> x, x * e -> 0, x ** e -> 1), so they change the value of "
                    "the tree")
             continue
-        for ps in summarize(mem.node, node_param=False, loop_mode="01"):
+        from ..summary import split_conditionals
+
+        class _P:           # a path with a conditional expression resolved
+            def __init__(self, ps, extra, rv):
+                self.term, self.retval = ps.term, rv
+                self.conds = list(ps.conds) + [(None, b, c) for c, b in extra]
+        for ps in [_P(ps0, extra, v)
+                   for ps0 in summarize(mem.node, node_param=False,
+                                        loop_mode="01")
+                   for extra, v in (split_conditionals(ps0.retval)
+                                    if ps0.term == "return" and isinstance(
+                                        ps0.retval, tuple) else [((), ps0.retval)])]:
             if ps.term != "return":
                 continue
             rv = ps.retval
